@@ -236,10 +236,10 @@ int main(int argc, char** argv) {
   t3.chunk = 16;
   t3.rule = "boundary 64-bit integers (2^k+-1, 10^k+-1, extremes, both signs) and doubles (format switch points, extremes, +-2ulp neighbours, every third binary exponent, 32 odd significands in every binade 2^54..2^80) set through the API at the root, in an array and as object values: kinds must survive the round trip";
   t4.name = "T4_nonfinite";
-  t4.count = 3 * 6;
+  t4.count = 8 * 6;
   t4.group = "T4";
   t4.chunk = 1;
-  t4.rule = "+inf, -inf, NaN at each of 6 positions of a small document: Serialize == kSerErrorInfinity and Dump() == \"\"";
+  t4.rule = "+inf, -inf and six NaN bit patterns (quiet / signalling / all-ones payload, both signs) at each of 6 positions of a small document: Serialize == kSerErrorInfinity and Dump() == \"\"";
   // T5: arrays that pack numbers of maximal text length so that every amount of free space in the
   // write buffer occurs when a long number is emitted (the serializer reserves a fixed amount per number)
   static const char* kLong[6] = {"-0.0000012345678901234567", "-1.7976931348623157e+308", "-2.2250738585072014e-308", "-9223372036854775808", "18446744073709551615", "-123456789012345680000.0"};
@@ -927,8 +927,11 @@ int main(int argc, char** argv) {
       return;
     }
     {
-      unsigned which = (unsigned)(idx % 3), pos = (unsigned)(idx / 3);
-      double bad = which == 0 ? INFINITY : which == 1 ? -INFINITY : NAN;
+      unsigned which = (unsigned)(idx % 8), pos = (unsigned)(idx / 8);
+      // every class of non-finite bit pattern: both infinities, quiet / signalling NaNs of both signs, with payloads
+      static const uint64_t kNonFinite[8] = {0x7ff0000000000000ull, 0xfff0000000000000ull, 0x7ff8000000000000ull, 0xfff8000000000000ull, 0x7ff0000000000001ull, 0xfff0000000000001ull, 0x7fffffffffffffffull, 0xffffffffffffffffull};
+      double bad;
+      std::memcpy(&bad, &kNonFinite[which], 8);
       ctx.eval();
       ctx.nontriv();
       Document d;
